@@ -399,6 +399,11 @@ def obligations(tier, seed):
                 obs.append({"name": "fill/%s/size=%d/%d" % (alpha, size, lo), "fn": "direct_fill", "kind": "direct",
                             "P": {"alpha": alpha, "what": "enum", "size": size, "lo": lo, "hi": lo + chunk,
                                   "after2": 6 if tier == "quick" else 99}, "timeout": 900})
+    # alternatives whose first branch cannot take the following content (the filler search must back out of it cleanly)
+    obs.append({"name": "fill/abc/explicit", "fn": "direct_fill", "kind": "direct", "timeout": 900,
+                "P": {"alpha": "abc", "what": "explicit", "after2": 99,
+                      "exprs": ["a | b c", "a a | b c", "a b+ | c a", "a? b | c a", "(a | b) c | b a", "a{2} | b c", "a b a | a c",
+                                "(a b | c)+ a", "a (b b | c a)", "(a | b a)* c", "a* b | c{2}", "(a{0,} b | c) a"]}})
     nn = len(nested_specs())
     step = 12 if tier == "quick" else 8
     for lo in range(0, nn, step):
